@@ -103,11 +103,11 @@ pub fn gen_c03(rng: &Rng, tier: Tier) -> ReadScn {
         let big = rng.chance(1, 3);
         let input = many_small_records(rng, fmt, if big { rng.range(70_000, 200_000) } else { rng.range(2000, 6000) });
         let a = if big {
-            Cfg { cap: 65536, policy: PolicySpec::Std, script: vec![rng.range(512, 9000) as u32], cuts: vec![], faults: vec![], intr_burst: None, lift: None }
+            Cfg { cap: 65536, policy: PolicySpec::Std, script: vec![rng.range(512, 9000) as u32], cuts: vec![], faults: vec![], intr_burst: None, lift: None, pause: None }
         } else {
             storm_cfg(rng)
         };
-        let b = Cfg { cap: rng.range(64, 400), policy: PolicySpec::Std, script: vec![], cuts: vec![], faults: vec![], intr_burst: None, lift: None };
+        let b = Cfg { cap: rng.range(64, 400), policy: PolicySpec::Std, script: vec![], cuts: vec![], faults: vec![], intr_burst: None, lift: None, pause: None };
         let n = input.iter().filter(|x| **x == if fmt == Fmt::Fasta { b'>' } else { b'@' }).count();
         return ReadScn { fmt, input, cfgs: vec![a, b], ops: ops_next_to_end(n), mon: Monitors::default(), profile: if big { "default_capacity_short_reads".into() } else { "interrupt_storm".into() } };
     }
